@@ -1,0 +1,20 @@
+//go:build verif
+
+package filters
+
+import (
+	"gitlab.com/aquachain/aquachain/common"
+	"gitlab.com/aquachain/aquachain/core/types"
+)
+
+// Add-only exports for the verification harness (/verif, property C16).
+
+// VerifFilterLogs exposes filterLogs as checkMatches calls it (no block bounds).
+func VerifFilterLogs(logs []*types.Log, addresses []common.Address, topics [][]common.Hash) []*types.Log {
+	return filterLogs(logs, nil, nil, addresses, topics)
+}
+
+// VerifBloomFilter exposes bloomFilter.
+func VerifBloomFilter(bloom types.Bloom, addresses []common.Address, topics [][]common.Hash) bool {
+	return bloomFilter(bloom, addresses, topics)
+}
